@@ -244,7 +244,7 @@ def small_graphs(n, multi):
 
 
 def traversal_rule(db, chk, uname, nmax):
-    from ..interp import Interp, World, Obj, PyVec, ThrowEx, NOT_HANDLED, ElemRef
+    from ..interp import Interp, World, Obj, PyVec, ThrowEx, NOT_HANDLED, ElemRef, SeqView
     from .routers import Table
     fns = {f.name: f for f in db.fns(unit=uname, pred=lambda f: f.cls == model.GRAPH_IMPL and
                                     f.name.startswith("compute_"))}
@@ -270,8 +270,10 @@ def traversal_rule(db, chk, uname, nmax):
             obj = call.get("obj")
             if bn == "xt::adapt":
                 v = it.rv(it.eval(args[0], frame))
-                shp = it.rv(it.eval(args[1], frame))
-                m = shp[0] if isinstance(shp, list) else shp
+                shp = it.rv(it.eval(args[1], frame)) if len(args) > 1 and "layout_type" not in fn.type(args[1].get("t")) else None
+                m = shp[0] if isinstance(shp, list) and shp else shp
+                if not isinstance(m, int) or isinstance(m, bool):
+                    return PyVec(list(v))       # adapt(container): the whole container
                 return PyVec(list(v)[:m])
             if obj is not None:
                 oref = it.eval(obj, frame)
@@ -292,7 +294,7 @@ def traversal_rule(db, chk, uname, nmax):
                     if name in ("begin", "end"):
                         from ..interp import Iter
                         return Iter(o, 0 if name == "begin" else len(o), 1)
-                    if name == "operator=":
+                    if name == "operator=" and not isinstance(o, SeqView):
                         v = it.rv(it.eval(args[0], frame))
                         o[:] = list(v)
                         return oref
